@@ -382,6 +382,14 @@ func blockOnListChangeWorker(
 		}
 		// a different client obtained the list element before this client could, so try again
 		verifPoint("block.afterfailedretry", ctx.cs.id)
+
+		// the wake-up took this client out of the wait lists: register again, then look
+		// once more (an element pushed in between would otherwise wake nobody)
+		ctx.dsc.ds.reenterListBlock(ws)
+		output = op()
+		if output.data != nil {
+			return
+		}
 	}
 }
 
